@@ -240,6 +240,43 @@ fn add_all(acc: &mut Acc, s: u32, fracs: &[u32], durs: &[i128], depth2: bool) {
     }
 }
 
+/// std::time::Duration operands over the whole u64 seconds lattice ("wraps around, ignores whole days" has no upper limit)
+fn std_durations(acc: &mut Acc, tl: &[(u32, u32)]) {
+    let mut secs: Vec<u64> = lat_u64();
+    for k in [86_400u64, 172_800, 604_800] {
+        for m in [1u64, 2, 3, 800, 1 << 20, (u64::MAX / k) - 1, u64::MAX / k] {
+            for d in [0u64, 1, 86_399] {
+                secs.push((k * m).saturating_add(d));
+                secs.push((k * m).saturating_sub(d));
+            }
+        }
+    }
+    secs.extend([u64::MAX, u64::MAX - 1, 1 << 63, (1 << 63) - 1, (1 << 63) + 86_400, i64::MAX as u64 + 2, 1 << 32, (1 << 32) + 86_399, 9_223_372_036_854_775]);
+    secs.sort();
+    secs.dedup();
+    for &(s, f) in tl {
+        let t = mk_t(s, f);
+        for &ds in &secs {
+            for dn in [0u32, 1, 400_000_000, 999_999_999] {
+                let sd = std::time::Duration::new(ds, dn);
+                let d = ds as i128 * NS + dn as i128;
+                let (wa, _, _) = ref_add(s, f, d);
+                let (wb, _, _) = ref_add(s, f, -d);
+                acc.transitions += 4;
+                let got = guard(|| {
+                    let (mut x, mut y) = (t, t);
+                    x += sd;
+                    y -= sd;
+                    (parts(t + sd), parts(t - sd), parts(x), parts(y))
+                });
+                if got != Ok((wa, wb, wa, wb)) {
+                    acc.violation("NaiveTime:std-Duration-lattice", format!("NaiveTime(sec {} frac {}) + / - / += / -= std Duration({} s {} ns)", s, f, ds, dn), format!("{:?}", (wa, wb, wa, wb)), format!("{:?}", got));
+                }
+            }
+        }
+    }
+}
+
 fn offsets(acc: &mut Acc, s: u32, fracs: &[u32], offs: &[i32]) {
     for &f in fracs {
         let t = mk_t(s, f);
@@ -471,6 +508,7 @@ fn main() {
             for &a in &tl {
                 diffs(acc, a, &tl);
             }
+            std_durations(acc, &tl);
             acc.traces += 1;
         } else {
             ndt_leap(acc, bd[(u - nsec_units - 2) as usize], &durs);
